@@ -115,6 +115,26 @@ Theorem C29_history : forall c w p w1 hs,
 Proof. exact constructor_history_ok. Qed.
 Print Assumptions C29_history.
 
+(* Leaving the block of `with openFiler(..., clear=cl) as filer` is the call
+   filer.close(clear = filer.temp or cl) with the object's CURRENT .temp.  It
+   removes exactly the temp resources: a persistent Filer without clear is
+   not touched at all; otherwise only the object's own scope is touched; a
+   temp Filer's mkdtemp directory is gone with everything below it; a
+   persistent path is gone only when clear was asked for.  (HExit is also one
+   of the calls C29_reopen_close and C29_history quantify over.) *)
+Theorem C29_exit : forall c st cl w r st' w',
+  good c st -> run_hop c st (HExit cl) w = (r, st', w') ->
+  st' = st /\
+  (f_temp st = false -> cl = false -> w' = w /\ r = Ok tt) /\
+  step_ok (scope st) w w' /\
+  (f_temp st = true -> r = Ok tt ->
+   forall p, f_path st = Some p -> p <> [] -> isdir (w_fs w) (f_tmp st) = true ->
+   forall q, prefix (f_tmp st) q -> q <> [] -> exists_ (w_fs w') q = false) /\
+  (f_temp st = false -> cl = true -> r = Ok tt ->
+   forall p, f_path st = Some p -> p <> [] -> exists_ (w_fs w') p = false).
+Proof. exact exit_spec. Qed.
+Print Assumptions C29_exit.
+
 (* Non-vacuity of the history theorems: persistent filed Filer "b/x" with a
    sibling's file next to it; reopen(temp=True, clear=True) removes only its
    own file and moves into tmp/T0; the sibling is still there; a final
@@ -128,7 +148,7 @@ Example C29_history_example :
   let w := {| w_fs := [([s 104], false); ([s 97], false); ([s 116], false); ([s 104; HIO], false);
                        ([s 104; HIO; s 98], false); sib]%N; w_log := [] |} in
   forall p w1, remake c w = (Ok p, w1) ->
-  let obs := run_hops c (born c p) [HReopen (Some true) None true false false; HClose true] w1 in
+  let obs := run_hops c (born c p) [HReopen (Some true) None true false false; HExit false] w1 in
   map (fun o => fst (fst o)) obs = [Ok tt; Ok tt] /\
   map (fun o => snd (fst o)) obs = [Some [s 116; [84; 48]; HIO; s 98; [120; 46; 116]]%N;
                                     Some [s 116; [84; 48]; HIO; s 98; [120; 46; 116]]%N] /\
